@@ -56,6 +56,9 @@ struct Expect {
     left_new: std::collections::BTreeSet<u64>,
     /// guest content of the backing chain below the top image (for the independent reader)
     below: Option<Vec<u8>>,
+    /// a cache slice was evicted while a multi-cluster call (concurrent per-cluster parts) ran:
+    /// case predicate of the eviction known finding (cumulative, damage can surface later)
+    evicted_in_multi: bool,
 }
 
 /// Case predicate of a known finding: the violating guest cluster is mapped to a host cluster
@@ -163,6 +166,7 @@ fn run_one(case: &SeqCase, plan: Option<FaultPlan>, out: &mut FaultRun) -> Optio
         alts: BTreeMap::new(),
         kind_uncertain: vec![],
         left_new: Default::default(),
+        evicted_in_multi: false,
         below: if case.layers.len() > 1 { Some(crate::model::chain_content(&case.layers, &layers.truths, 1)) } else { None },
     };
     ex.kind_uncertain = vec![false; ex.model.clusters()];
@@ -199,6 +203,9 @@ fn run_one(case: &SeqCase, plan: Option<FaultPlan>, out: &mut FaultRun) -> Optio
         }
     }
     if let Err(mut v) = r {
+        if ex.evicted_in_multi {
+            v.tags.push("hist:eviction_during_concurrency".into());
+        }
         // case predicate for a known finding: a hole punch and the zero-write fallback that
         // follows it both failed (a freshly allocated cluster could not be zeroed)
         {
@@ -271,9 +278,14 @@ fn run_one_inner(case: &SeqCase, world: &World, ex: &mut Expect, st: &mut FaultS
             Op::Write { off, len, pat } => {
                 let mut data = ABuf::new(*len, 0);
                 crate::pat::fill(&mut data, *pat, *off);
-                let r = drv(drive(world, &mut sched, dev.write_at(&data, *off)), "write_at").map_err(|v| v.at(i))?;
                 let first = *off as usize / cs;
                 let last = (*off as usize + *len - 1) / cs;
+                let ev0 = qcow2_rs::cache::verif_evictions();
+                let r0 = drive(world, &mut sched, dev.write_at(&data, *off));
+                if last > first && qcow2_rs::cache::verif_evictions() > ev0 {
+                    ex.evicted_in_multi = true;
+                }
+                let r = drv(r0, "write_at").map_err(|v| v.at(i))?;
                 match r {
                     Ok(()) => {
                         if injected(world) > before {
